@@ -5,7 +5,9 @@
       the same arrays in the same order, except that step() factorises M inside fwd_acceleration (factor_solve_i) while
       step1();step2() factorise in fwd_position (factor_m) and solve in fwd_acceleration (solve_m); no launch between the two
       factorisation points can write M / qLD / qLDiagInv (K-mode write queries on the real kernels).  With the lemma
-      factor_m;solve_m == factor_solve_i (C21) the results are equal.
+      factor_m;solve_m == factor_solve_i (C21) the results are equal.  With sleep enabled both paths solve the smooth system in
+      compacted space; step1()'s factor_m is then dead code: the solver proves that no launch of either path loads from or
+      stores to qLD / qLDiagInv (which step() leaves stale: they are excluded from the equality claim).
  forward/<model>                F7 + K: no launch (and no zero_/fill_/copy) of the REAL forward() can write an integration-state
       field (time, qpos, qvel, act, history, qacc_warmstart, ctrl, qfrc_applied, xfrc_applied, eq_active, mocap_pos,
       mocap_quat, userdata): for every launch that binds such a field the solver is asked whether the real kernel can
@@ -272,6 +274,31 @@ def write_query(ctx, l, loc, param, name, desc, replay=None):
   return True
 
 
+def access_query(ctx, l, loc, param, name, desc, replay=None):
+  """solver query: can the real kernel of launch `l` load from or store to parameter `param` at all?"""
+  if l.tiled:
+    ctx.error(f"tile kernel {l.key} binds {param}: cannot decide whether it is accessed ({name})")
+    return None
+  try:
+    kt = lib.kernel_thread(l.kernel, unroll=2, alias_inout=False, interp_kw={"float_uf": True, "summaries": history_stubs()})
+  except core.Unsupported as ex:
+    ctx.error(f"{l.key} binds {param} but is not encodable ({ex}) ({name})")
+    return None
+  ctx.encode(l.kernel)
+  sess = ctx.session(kt.bg)
+  ctx.reach(sess, f"twin:{name}", True)
+  cell = kt.cell(param)
+  sites = sorted([a for a in kt.it.accesses if a.cell is cell], key=lambda a: len(str(a.guard)))
+  if not sites:
+    ctx.prove(sess, name, True, desc=desc)
+    return True
+  for a in sites:
+    r = ctx.prove(sess, f"{name}@{a.where.split(':')[-1]}", Not(a.guard), names={}, replay=replay, desc=desc)
+    if r.status != "unsat":
+      return False
+  return True
+
+
 def unit_compose(integ, sleep=False):
   def run(ctx):
     import mujoco_warp as mjw
@@ -296,8 +323,16 @@ def unit_compose(integ, sleep=False):
       A0, A1 = A[:fs0], A[fs1:]
       B0, B1, B2 = B[:f0], B[f1:s0], B[s1:]
     else:
-      # sleep enabled: M is solved in compacted space in both paths; the traces must be identical
-      A0, A1, B0, B1, B2 = A, [], B, [], []
+      # sleep enabled: fwd_acceleration solves the smooth system in compacted space (smooth_solve_compact) in both paths, so
+      # neither solve_m nor a factor_solve_i on Data.M occurs; step1()'s fwd_position still runs factor_m (factorize=True),
+      # whose only outputs qLD / qLDiagInv must then be dead: no other launch of either path may read or write them.
+      okm = not a.marks["factor_m"] and not a.marks["solve_m"] and not b.marks["solve_m"] and len(b.marks["factor_m"]) == 1 and len(a.marks["factor_solve_i"]) == len(b.marks["factor_solve_i"])
+      ctx.prove(sess, "factorisation-points", z3.BoolVal(okm), desc=f"sleep enabled: expected no factorisation of Data.M in step() and one (unused) factor_m in step1(): step {a.marks}, step1;step2 {b.marks}", replay=rp("factorisation-points"))
+      if not okm:
+        return
+      f0, f1 = b.marks["factor_m"][0]
+      A0, A1 = A, []
+      B0, B1, B2 = B[:f0], B[f1:], []
     ra, rb = {}, {}
     pa, pb = sigs(A0, ra), sigs(B0 + B1, rb)
     ctx.prove(sess, "same-launches/up-to-acceleration", z3.BoolVal(pa == pb), desc=f"step() and step1();step2() launch different kernels / bind different arrays before the smooth acceleration solve: {first_diff(pa, pb)}", replay=rp("same-launches"))
@@ -312,11 +347,27 @@ def unit_compose(integ, sleep=False):
 
     ha, hb = hostops(a, ra), hostops(b, rb)
     ctx.prove(sess, "same-host-writes", z3.BoolVal(ha == hb), desc=f"zero_/fill_/copy operations differ: {first_diff(ha, hb)}", replay=rp("host-writes"))
-    if sleep:
-      return
-    # factorisation reads M and writes qLD / qLDiagInv; the solve reads them and qfrc_smooth and writes qacc_smooth
     def labels(ls, out):
       return sorted({lab for l in ls for p, lab, o in l.bound() if lab and lab.startswith("d.") and o == out})
+
+    if sleep:
+      F = B[f0:f1]
+      io = (labels(F, False), labels(F, True))
+      ctx.notes.append(f"step1()'s factor_m: Data inputs {io[0]}, outputs {io[1]} (not consumed with sleep enabled; step() leaves qLD / qLDiagInv stale: they are excluded from the equality claim)")
+      ctx.prove(sess, "factorisation-dataflow", z3.BoolVal(set(io[0]) <= {"d.M"} and set(io[1]) <= {"d.qLD", "d.qLDiagInv"}), desc=f"factor_m is bound to unexpected Data arrays: {io}", replay=rp("dataflow"))
+      dead = {"d.qLD", "d.qLDiagInv"}
+      for which, ls, off, tag in (("step12", B0, 0, "step1;step2"), ("step12", B1, f1, "step1;step2"), ("step", A, 0, "step")):
+        for k, l in enumerate(ls):
+          for p, lab, o in l.bound():
+            if lab in dead:
+              access_query(ctx, l, f"capture:checks.c37:capture:{which}|{integ}|1|1|{off + k}", p, f"dead-factor/no-access/{lab}/{tag}/{l.key.replace('__locals__', '.')}#{off + k}", f"sleep enabled: {l.key} ({tag}) accesses {lab}, which only step1() factorises: step() and step1();step2() can differ", replay=rp("dead-factor"))
+      for hr_, tag in ((a, "step"), (b, "step1;step2")):
+        for n, kind, info in hr_.other:
+          names = info if isinstance(info, tuple) else (info,)
+          if dead & set(x for x in names if isinstance(x, str)):
+            ctx.prove(sess, f"dead-factor/host-{kind}/{tag}", z3.BoolVal(False), desc=f"host {kind} {info} touches the factor of M ({tag})", replay=rp("dead-factor"))
+      return
+    # factorisation reads M and writes qLD / qLDiagInv; the solve reads them and qfrc_smooth and writes qacc_smooth
 
     FS, F, S = A[fs0:fs1], B[f0:f1], B[s0:s1]
     io = {"factor_solve_i": (labels(FS, False), labels(FS, True)), "factor_m": (labels(F, False), labels(F, True)), "solve_m": (labels(S, False), labels(S, True))}
